@@ -2,10 +2,13 @@
    real wdclient.MasterClient (its embedded vidMap).  Updates arrive either
    directly (addLocation/deleteLocation through the verif hook) or as
    VolumeLocation messages over a real in-process gRPC KeepConnected stream
-   (including leader hints and disconnects).  Readers take slices with
-   GetLocations, HOLD them across later updates and re-read them.
+   (including leader hints, disconnects, masters that cannot be reached).  Readers
+   take slices with GetLocations, HOLD them across later updates and re-read them.
+   Concurrent cases add reader GOROUTINES that run while the updates are applied;
+   each of their answers carries the window [lo, hi] of update indices it may
+   belong to and is judged by [window_ok].
 
-   Locations come from a 4 urls x 3 data-center universe written as [K Ux Dy]
+   Locations come from a 6 urls x 3 data-center universe written as [K Ux Dy]
    (parsing string literals is slow); Dc0 is the empty data center. *)
 From Coq Require Import String List NArith ZArith Bool.
 From SW Require Export base.Verdict model.VidMap.
@@ -13,15 +16,16 @@ Import ListNotations.
 Local Open Scope string_scope.
 Local Open Scope list_scope.
 
-Inductive U := U1 | U2 | U3 | U4.
+Inductive U := U1 | U2 | U3 | U4 | U5 | U6.
 Inductive D := Dc0 | Dc1 | Dc2.
 Definition ustr (u : U) : string :=
-  match u with U1 => "u1:8080" | U2 => "u2:8080" | U3 => "u3:8080" | U4 => "u4:8080" end.
+  match u with U1 => "u1:8080" | U2 => "u2:8080" | U3 => "u3:8080" | U4 => "u4:8080"
+             | U5 => "u5:8080" | U6 => "u6:8080" end.
 Definition dstr (d : D) : string := match d with Dc0 => "" | Dc1 => "dc1" | Dc2 => "dc2" end.
 (* the PublicUrl records which notification created the entry *)
 Definition K (u : U) (d : D) : loc :=
   {| url := ustr u; public_url := "pub-" ++ ustr u ++ "-" ++ dstr d; dc := dstr d |}.
-Definition all_urls : list string := map ustr [U1; U2; U3; U4].
+Definition all_urls : list string := map ustr [U1; U2; U3; U4; U5; U6].
 
 (* message: leader hint present?, location, NewVids, DeletedVids *)
 Definition G (leader : bool) (l : loc) (nw dl : list N) : msg :=
@@ -32,6 +36,8 @@ Definition L10 := K U1 Dc0. Definition L11 := K U1 Dc1. Definition L12 := K U1 D
 Definition L20 := K U2 Dc0. Definition L21 := K U2 Dc1. Definition L22 := K U2 Dc2.
 Definition L30 := K U3 Dc0. Definition L31 := K U3 Dc1. Definition L32 := K U3 Dc2.
 Definition L40 := K U4 Dc0. Definition L41 := K U4 Dc1. Definition L42 := K U4 Dc2.
+Definition L50 := K U5 Dc0. Definition L51 := K U5 Dc1. Definition L52 := K U5 Dc2.
+Definition L60 := K U6 Dc0. Definition L61 := K U6 Dc1. Definition L62 := K U6 Dc2.
 Definition v1 : N := 1%N. Definition v2 : N := 2%N. Definition v3 : N := 3%N. Definition v9 : N := 9%N.
 Definition c1 : nat := 1. Definition c2 : nat := 2. Definition c4 : nat := 4. Definition c8 : nat := 8.
 
@@ -42,7 +48,7 @@ Inductive vst := NF | Fd (ls : list loc) (cap : nat) | Same.
 Inductive cop :=
 | CEv (e : ev)                (* one addLocation / deleteLocation call *)
 | CMsg (g : msg)              (* one VolumeLocation message over the stream *)
-| CDisc                       (* the stream ends: tryAllMasters resets the cache *)
+| CDisc                       (* a stream ends or a master cannot be reached: tryAllMasters resets the cache *)
 | CLookupUrl (s : string)     (* LookupVolumeServerUrl *)
 | CLookupFid (s : string)     (* LookupFileId *)
 | CGetVidLocs (s : string)    (* GetVidLocations *)
@@ -60,7 +66,17 @@ Inductive cobs :=
 Definition A (v : N) (l : loc) : cop := CEv (EvAdd v l).
 Definition Dl (v : N) (l : loc) : cop := CEv (EvDel v l).
 
-Record case := { client_dc : D; ops : list cop; impl : list cobs }.
+(* one answer a reader goroutine got while updates were running *)
+Inductive rq :=
+| QGet (v : N) (s : vst)                       (* GetLocations(v): content and capacity *)
+| QUrl (s : string) (r : res (list string))    (* LookupVolumeServerUrl *)
+| QLocs (s : string) (r : res (list loc))      (* GetVidLocations *)
+| QHeld (taken now : list loc).                (* a slice kept by the goroutine: what it showed when taken / shows now *)
+(* [RO lo hi q]: when the call began, lo atomic updates had completed; when it
+   returned, hi had begun (lo <= hi; counted in events, see [events_of_op]) *)
+Inductive robs := RO (lo hi : nat) (q : rq).
+
+Record case := { client_dc : D; ops : list cop; impl : list cobs; conc : list robs }.
 
 Definition uvids : list N := [1; 2; 3]%N.
 
@@ -118,10 +134,12 @@ Fixpoint nodup_urls (ls : list loc) : bool :=
   | [] => true
   | l :: ls' => negb (has_url (url l) ls') && nodup_urls ls'
   end.
-(* exactly the live locations, each once *)
+(* exactly the live locations, each once — and at least one: a volume without a
+   live location must be answered not-found, never "found, no locations" *)
 Definition exact_set (v : N) (hist : list ev) (ls : list loc) : bool :=
   let lv := live_locs v hist in
-  nodup_urls ls && Nat.eqb (length ls) (length lv) && forallb (fun l => mem_loc l ls) lv.
+  match ls with [] => false | _ =>
+  nodup_urls ls && Nat.eqb (length ls) (length lv) && forallb (fun l => mem_loc l ls) lv end.
 Definition state_ok (v : N) (hist : list ev) (s : vst) : bool :=
   match s with
   | NF => match live_locs v hist with [] => true | _ => false end
@@ -147,7 +165,8 @@ Fixpoint opt_all {A} (l : list (option A)) : option (list A) :=
   end.
 
 
-(* verdict of one property check (C35 has no known findings left) *)
+(* verdict of one property check (C35 has no known findings left: the five
+   confirmed defects were repaired in the tree) *)
 Inductive pv := Pass | Fail.
 
 (* lookup by volume-id string: [Some us] = the urls returned, [None] = an error.
@@ -204,15 +223,11 @@ Definition res_opt {A} (r : res A) : option A := match r with Ok a => Some a | E
 Record st := {
   s_m : vmap;
   s_hist : list ev;                       (* every atomic update so far *)
-  s_snaps : list (N * slice * nat);       (* kept slices: volume, header, |hist| when taken *)
-  s_seen : list (N * list loc);           (* every list the implementation showed for a volume *)
+  s_snaps : list (N * slice * list loc);  (* kept slices: volume, header, the list the IMPLEMENTATION showed when it was taken *)
   s_corr : bool;
   s_pv : list pv;
   s_nontriv : bool;
   s_last : list vst }.                    (* the previous OSt, to expand [Same] *)
-
-Definition seen_of (v : N) (s : vst) : list (N * list loc) :=
-  match s with Fd ls _ => [(v, ls)] | NF => [(v, [])] | Same => [] end.
 
 Definition pv_of_bool (b : bool) : pv := if b then Pass else Fail.
 Definition nonempty (s : vst) : bool := match s with Fd (_ :: _) _ => true | _ => false end.
@@ -222,23 +237,22 @@ Definition update (x : st) (es : list ev) (ob : cobs) : st :=
   let hist' := s_hist x ++ es in
   match ob with
   | ONone =>
-      {| s_m := m'; s_hist := hist'; s_snaps := s_snaps x; s_seen := s_seen x;
+      {| s_m := m'; s_hist := hist'; s_snaps := s_snaps x;
          s_corr := s_corr x; s_pv := s_pv x; s_nontriv := s_nontriv x; s_last := s_last x |}
   | OSt a b c d =>
       let sts := resolve (s_last x) [a; b; c] in
       {| s_m := m'; s_hist := hist'; s_snaps := s_snaps x;
-         s_seen := s_seen x ++ flat_map (fun vs => seen_of (fst vs) (snd vs)) (combine uvids sts);
          s_corr := s_corr x && list_eqb vst_eqb (map (model_vst m') uvids) sts
                            && String.eqb (data_center m') (dstr d);
          s_pv := s_pv x ++ map (fun vs => pv_of_bool (state_ok (fst vs) hist' (snd vs))) (combine uvids sts);
          s_nontriv := s_nontriv x || existsb nonempty sts; s_last := sts |}
   | _ =>
-      {| s_m := m'; s_hist := hist'; s_snaps := s_snaps x; s_seen := s_seen x;
+      {| s_m := m'; s_hist := hist'; s_snaps := s_snaps x;
          s_corr := false; s_pv := s_pv x; s_nontriv := s_nontriv x; s_last := s_last x |}
   end.
 
 Definition observe (x : st) (corr : bool) (p : pv) : st :=
-  {| s_m := s_m x; s_hist := s_hist x; s_snaps := s_snaps x; s_seen := s_seen x;
+  {| s_m := s_m x; s_hist := s_hist x; s_snaps := s_snaps x;
      s_corr := s_corr x && corr; s_pv := s_pv x ++ [p]; s_nontriv := s_nontriv x; s_last := s_last x |}.
 
 Definition step1 (d : string) (x : st) (o : cop) (ob : cobs) : st :=
@@ -273,20 +287,23 @@ Definition step1 (d : string) (x : st) (o : cop) (ob : cobs) : st :=
       | OSnap s =>
           let x' := observe x (vst_eqb (model_vst (s_m x) v) s) (pv_of_bool (state_ok v (s_hist x) s)) in
           {| s_m := s_m x'; s_hist := s_hist x';
-             s_snaps := match get_locations (s_m x) v with
-                        | Some hd => s_snaps x ++ [(v, hd, length (s_hist x))]
-                        | None => s_snaps x
+             (* the harness keeps a slice iff the implementation said "found" *)
+             s_snaps := match s with
+                        | Fd ls _ => s_snaps x ++ [(v, match get_locations (s_m x) v with
+                                                       | Some hd => hd
+                                                       | None => {| s_arr := 0; s_len := 0; s_cap := 0 |}
+                                                       end, ls)]
+                        | _ => s_snaps x
                         end;
-             s_seen := s_seen x ++ seen_of v s;
              s_corr := s_corr x'; s_pv := s_pv x'; s_nontriv := s_nontriv x'; s_last := s_last x' |}
       | _ => observe x false Pass
       end
   | CReread k =>
       match ob, nth_error (s_snaps x) k with
-      | ORead ls, Some (v, hd, t) =>
-          let past := existsb (fun e => N.eqb (fst e) v && list_eqb loc_eqb (snd e) ls) (s_seen x) in
+      | ORead ls, Some (v, hd, taken) =>
+          (* the held slice must still show exactly what it showed when it was taken *)
           observe x (list_eqb loc_eqb (cells (heap (s_m x)) hd) ls)
-                    (if past then Pass else Fail)
+                    (pv_of_bool (list_eqb loc_eqb taken ls))
       | _, _ => observe x false Pass
       end
   end.
@@ -299,16 +316,49 @@ Fixpoint steps (d : string) (x : st) (os : list cop) (obs_ : list cobs) : st :=
   end.
 
 Definition start (d : string) : st :=
-  {| s_m := init d; s_hist := []; s_snaps := []; s_seen := []; s_corr := true; s_pv := [];
+  {| s_m := init d; s_hist := []; s_snaps := []; s_corr := true; s_pv := [];
      s_nontriv := false; s_last := [NF; NF; NF] |}.
 
 Definition is_pass (p : pv) : bool := match p with Pass => true | _ => false end.
 
+(* ---- answers of concurrent readers ---- *)
+(* the states after 0, 1, 2, ... of the events *)
+Fixpoint states_from (m : vmap) (evs : list ev) : list vmap :=
+  m :: match evs with [] => [] | e :: evs' => states_from (apply m e) evs' end.
+
+(* the model's answer in state m equals the observed one *)
+Definition rq_model (m : vmap) (q : rq) : bool :=
+  match q with
+  | QGet v s => vst_eqb (model_vst m v) s
+  | QUrl s r => res_eqb (list_eqb String.eqb) (lookup_volume_server_url m s) r
+  | QLocs s r => res_eqb (list_eqb loc_eqb)
+                   (match get_vid_locations m s with Ok hd => Ok (cells (heap m) hd) | Err e => Err e end) r
+  | QHeld a b => list_eqb loc_eqb a b          (* snapshot_stable: whatever the state *)
+  end.
+(* the property's oracle on the observed answer against the history prefix *)
+Definition rq_prop (d : string) (hist : list ev) (q : rq) : bool :=
+  match q with
+  | QGet v s => state_ok v hist s
+  | QUrl s r => is_pass (urls_ok d hist s (res_opt r))
+  | QLocs s r => is_pass (locs_ok hist s (res_opt r))
+  | QHeld a b => list_eqb loc_eqb a b
+  end.
+
+Definition robs_corr (sts : list vmap) (n : nat) (o : robs) : bool :=
+  match o with RO lo hi q =>
+    Nat.leb lo hi && Nat.leb hi n &&
+    window_ok (fun j => match nth_error sts j with Some m => rq_model m q | None => false end) lo hi
+  end.
+Definition robs_prop (d : string) (hist : list ev) (o : robs) : bool :=
+  match o with RO lo hi q => window_ok (fun j => rq_prop d (firstn j hist) q) lo hi end.
+
 Definition check (c : case) : outcome :=
   let d := dstr (client_dc c) in
   let x := steps d (start d) (ops c) (impl c) in
-  {| o_corr := s_corr x;
-     o_prop := forallb is_pass (s_pv x);
+  let hist := s_hist x in
+  let sts := states_from (init d) hist in
+  {| o_corr := s_corr x && forallb (robs_corr sts (length hist)) (conc c);
+     o_prop := forallb is_pass (s_pv x) && forallb (robs_prop d hist) (conc c);
      o_trig := None;
      o_nontrivial := s_nontriv x |}.
 
